@@ -159,6 +159,30 @@ CLAIMED = {
         'must give the same exported text.',
         'Trusted: TLC; the generator; openpyxl for writing the source files.',
         'DESIGN.md 4/C09'),
+    'C13': (
+        'TLC model checking of Volatile.tla (NeverFrozen, OncePerEpoch over '
+        'every way of obtaining an executable object) + replay with the '
+        'harness controlling clock and random seed + TLC validation of the '
+        'recorded vol events (hook H5)',
+        'Volatile.tla: obtaining an object (parse+compile, load, import, JSON '
+        'round trip, deepcopy, dill, compile from the model) never fixes a '
+        'volatile value - ExcelModel.compile\'s freezing is a named deviation '
+        '- and every use evaluates every site once. 16 wrappers x NOW, TODAY, '
+        'RAND, RANDBETWEEN (volatile call at every depth and argument '
+        'position, selected and fallback branches) are compiled, deep-copied '
+        'and dilled; workbooks with volatile cells, dependents and volatile '
+        'defined names are obtained in six ways; every object is used four '
+        'times with the clock of formulas.functions.date and numpy\'s seed '
+        'set by the harness: values must differ whenever clock and seed '
+        'differ and repeat with the clock for NOW/TODAY; dependents of one '
+        'volatile cell see one value; RAND in [0,1), RANDBETWEEN an integer in '
+        'bounds. The recorded vol events (function, compiling flag) must show '
+        'no real evaluation while obtaining and exactly one per site per use.',
+        'Trusted: TLC; the clock patch (module attribute of '
+        'formulas.functions.date) and numpy seeding. Equal volatile '
+        'sub-expressions of one formula share one evaluation in this library; '
+        'the property does not ask call sites to be independent.',
+        'DESIGN.md 4/C13'),
     'C14': (
         'TLC model checking of Workbook.tla with unresolvable items (every '
         'schedule reaches a total fixed point = SemF) over every subset of the '
